@@ -652,7 +652,17 @@ def resolve_shm_batch(
         raise ValueError(f"shared memory pointer ({offset}, {length}) lies outside the {shm.size}-byte segment")
 
     buf = shm.read_buffer(offset, length)
-    resolved_batch = _deserialize_from_shm(buf, batch.schema)
+    try:
+        resolved_batch = _deserialize_from_shm(buf, batch.schema)
+    except (StopIteration, OSError) as exc:
+        # What the region holds is the peer's doing.  A stream without a batch
+        # ends the read with StopIteration (which a caller iterating a stream
+        # would take for "end of stream", and the serve loop for "peer closed");
+        # bytes that are not IPC framing at all fail with OSError.  Both are the
+        # same condition as the ArrowInvalid pyarrow raises for other garbage: a
+        # pointer to something that is not a record batch.
+        detail = str(exc) or "the region holds an IPC stream without a record batch"
+        raise ValueError(f"shared memory region ({offset}, {length}) does not hold a record batch: {detail}") from exc
 
     # Strip pointer keys, add provenance
     resolved_cm = strip_keys(custom_metadata, SHM_OFFSET_KEY, SHM_LENGTH_KEY)
